@@ -33,6 +33,7 @@ def msgNames (m : Message) : List Name :=
     known) says whether the input is within the limits. -/
 def oracleName (impl : String) (specAccept : Option Bool) : String :=
   if impl == "none" then (if specAccept == some true then "fail:C16:rejected-valid-name" else "ok")
+  else if impl == "panic" then "fail:C16:name-constructor-panicked,fail:C17:name-constructor-panicked"
   else
     match parseName impl with
     | none => "fail:C16:unparsable"
@@ -53,12 +54,14 @@ def oracleDecode (buf : List UInt8) (impl : String) : String :=
   else if impl == "panic" then "fail:C03:decoder-panicked"
   else
   if impl.startsWith "ok " then
-    match ref with
-    | none => "fail:C03:accepted-malformed"
-    | some (m, _) =>
-      if "ok " ++ showMessage m != impl then "fail:C03:misread"
-      else if !(msgNames m).all wfNameB then "fail:C16:wire-name-not-wellformed"
-      else "ok"
+    -- C16 judges the names the implementation itself produced, whatever the reference says
+    let c16 : List String := match parseMessage (impl.drop 3).toString with
+      | some mi => if (msgNames mi).all wfNameB then [] else ["fail:C16:wire-name-not-wellformed"]
+      | none => []
+    let c03 : List String := match ref with
+      | none => ["fail:C03:accepted-malformed"]
+      | some (m, _) => if "ok " ++ showMessage m != impl then ["fail:C03:misread"] else []
+    if (c03 ++ c16).isEmpty then "ok" else ",".intercalate (c03 ++ c16)
   else if impl.startsWith "err " then
     match ref with
     | some _ => "fail:C03:rejected-wellformed"
